@@ -69,23 +69,43 @@ def first_enabled(groups):
     raise ValueError
 
 
-def make_runs(groups, params):
-    """The runs of a product-mode observation, in order, with the (key, repr(value)) of each."""
+DEFAULTS = {"t": 200.0, "q": 1.0, "arg": "?"}     # what a run sees for a parameter that it does not sweep
+
+
+def make_runs(groups, params, pmode="product"):
+    """The runs of an observation, in order, with the (key, repr(value)) of each.
+    product: the cartesian product of the value lists (first parameter outermost);
+    sequential: one parameter after the other, the others staying at the configured values."""
     g0, m0 = first_enabled(groups)
     keys = {"t": T_KEY, "q": Q_KEY, "arg": f"pipeline.{g0}.{m0}.arguments.arg"}
+    field = {"t": "t", "q": "q", "arg": "tag"}
     runs = []
+    if pmode == "sequential":
+        for p in params:
+            for v in p["values"]:
+                run = dict(id=len(runs), t=None, q=None, tag=None, params=[[keys[p["kind"]], repr(v)]])
+                for other in params:
+                    run[field[other["kind"]]] = DEFAULTS[other["kind"]]
+                run[field[p["kind"]]] = v
+                runs.append(run)
+        return runs
     for i, combo in enumerate(itertools.product(*[p["values"] for p in params])):
         run = dict(id=i, t=None, q=None, tag=None, params=[])
         for p, v in zip(params, combo):
-            run["tag" if p["kind"] == "arg" else p["kind"]] = v
+            run[field[p["kind"]]] = v
             run["params"].append([keys[p["kind"]], repr(v)])
         runs.append(run)
     return runs
 
 
-def gen_params(r, mode, entry="run_mode"):
+def gen_params(r, mode, entry="run_mode", pmode="product"):
     if mode == "exposure":
         return []
+    if pmode == "sequential":
+        kinds = r.choice([["t", "q"], ["q", "t"], ["t", "arg"], ["arg", "q"], ["t", "q", "arg"]] if entry != "deprecated"
+                         else [["t", "q"], ["q", "t"]])
+        sizes = r.choice([[2, 2], [1, 2], [2, 1], [3, 1]]) if len(kinds) == 2 else [1, 2, 1]
+        return _param_values(r, kinds, sizes, distinct_from_defaults=True)
     if entry == "deprecated":
         kinds = r.choice([["t"], ["t"], ["t", "q"], ["q", "t"], ["q"]])
         sizes = [r.randrange(2, 5)] if len(kinds) == 1 else [2, 2]
@@ -93,19 +113,23 @@ def gen_params(r, mode, entry="run_mode"):
     if mode == "obs_dask":
         kinds = r.choice([["t"], ["t"], ["t", "q"], ["q", "t"]])
     else:
-        kinds = r.choice([["t"], ["t", "q"], ["arg"], ["arg", "t"], ["q", "t"], ["t", "arg"]])
-    sizes = [r.randrange(2, 5)] if len(kinds) == 1 else r.choice([[2, 2], [2, 2], [1, 3], [3, 1], [2, 1]])
+        # up to three nested sweeps
+        kinds = r.choice([["t"], ["t", "q"], ["arg"], ["arg", "t"], ["q", "t"], ["t", "arg"], ["t", "q", "arg"], ["arg", "t", "q"]])
+    if len(kinds) == 3:
+        sizes = r.choice([[2, 1, 2], [1, 2, 2], [2, 2, 1], [2, 2, 2]])
+    else:
+        sizes = [r.randrange(2, 5)] if len(kinds) == 1 else r.choice([[2, 2], [2, 2], [1, 3], [3, 1], [2, 1]])
     return _param_values(r, kinds, sizes)
 
 
-def _param_values(r, kinds, sizes):
+def _param_values(r, kinds, sizes, distinct_from_defaults=False):
     params = []
     for k, n in zip(kinds, sizes):
         if k == "t":
-            base = r.randrange(100, 200)
+            base = r.randrange(100, 170)
             vals = [base + 7 * i for i in range(n)]
         elif k == "q":
-            vals = r.sample(Q_VALUES, n)
+            vals = r.sample([q for q in Q_VALUES if not (distinct_from_defaults and q == DEFAULTS["q"])], n)
         else:
             vals = r.sample(TAGS, n)
         params.append(dict(kind=k, values=vals))
@@ -116,11 +140,18 @@ def scenario(r, mode, max_positions, entry="run_mode"):
     while True:
         groups = gen_pipeline(r, max_models=6 if mode == "exposure" else 5)
         nsteps = r.randrange(1, 4)
-        params = gen_params(r, mode, entry)
-        runs = make_runs(groups, params) if params else [dict(id=0, t=None, q=None, tag=None, params=[])]
+        # the `sequential` parameter mode under dask is C05's (a known defect there): sequential execution only
+        pmode = "sequential" if (mode == "obs_seq" and r.random() < 0.25) else "product"
+        params = gen_params(r, mode, entry, pmode)
+        runs = make_runs(groups, params, pmode) if params else [dict(id=0, t=None, q=None, tag=None, params=[])]
         nmod = sum(len(g["models"]) for g in groups)
-        if len(runs) * nsteps * nmod <= max_positions and (mode == "exposure" or 2 <= len(runs) <= 4):
-            return dict(mode=mode, groups=groups, nsteps=nsteps, params=params, runs=runs)
+        if len(runs) * nsteps * nmod <= max_positions and (mode == "exposure" or 2 <= len(runs) <= (8 if mode == "obs_seq" else 4)):
+            sc = dict(mode=mode, groups=groups, nsteps=nsteps, params=params, runs=runs)
+            if pmode != "product":
+                sc["pmode"] = pmode
+            if r.random() < 0.3:
+                sc["seed"] = r.randrange(1, 1000)       # pipeline_seed: the run goes through set_random_seed's try/finally
+            return sc
 
 
 def cases_of_scenario(r, sc, cls_cycle, extra=True, entry="run_mode", outputs=False, every=1):
@@ -168,7 +199,7 @@ def calib_cases(r, cls_cycle, n_scen, entries=("run_mode",), max_islands=1):
         for g in groups:
             for m in g["models"]:
                 m["enabled"] = True
-        entry = entries[i % len(entries)]
+        entry = r.choice(list(entries))
         islands = r.randrange(1, max_islands + 1)
         pop, evol = 7, r.choice([1, 2])
         init = pop * islands
@@ -302,7 +333,7 @@ def emit_file(pairs) -> str:
 
 
 def slim(c):
-    return {k: c[k] for k in ("mode", "entry", "outputs", "debug", "cleanup_fails", "chained", "pmode", "groups", "nsteps",
+    return {k: c[k] for k in ("mode", "entry", "outputs", "debug", "cleanup_fails", "chained", "pmode", "seed", "groups", "nsteps",
                               "params", "runs", "faults", "scheduler", "pop", "evolutions", "islands")
             if k in c}
 
@@ -441,6 +472,7 @@ def correspondence(ctx: Ctx, cases, tag="c", confirm=True):
         ctx.dist("outcome", "raised" if (o["call"].get("raised") or o["load"].get("raised")) else "returned")
         if c["mode"] != "exposure":
             ctx.dist("runs", len(c["runs"]) if c["mode"] != "calib" else "calibration")
+            ctx.dist("swept_parameters", f"{c.get('pmode', 'product')}:{len(c['params'])}")
         ctx.dist("steps", c["nsteps"])
     if mism and confirm:
         # a disagreement must be reproducible to count: run exactly those cases once more
